@@ -114,7 +114,7 @@ def make_board(rng, devcfg):
     for k in range(nplain):
         if len(inputs) >= nin_max or rng.random() < 0.3: break
         if rng.random() < 0.3 and nextch < 8 and nextch not in plain_ch and nextch >= nrs and nrs + nplain + sum(1 for x in inputs if x[4] != 255) < 8:   # at most 8 channels (registration indexes supla_rs_cfg by channel position)
-            inputs.append((in_pins[len(inputs) % len(in_pins)], 1, 0, relays[2 * nrs + k][0], nextch, 0x3FF)); nextch += 1
+            inputs.append((in_pins[len(inputs) % len(in_pins)], rng.choice([1, 1, 2]), 0, relays[2 * nrs + k][0], nextch, rng.choice([0x3FF, 0x3FF, 0, 0x3, 0x2A0, 0x1, 0xFFFFFFFF]))); nextch += 1
         else:
             inputs.append((in_pins[len(inputs) % len(in_pins)], 1, 0, relays[2 * nrs + k][0], 255, 0))
     return Board(devcfg, 0, relays, rs, inputs, rng.choice([0, 0, C['FLAG_RUNTIME_CONFIG']]))
@@ -164,7 +164,7 @@ def is_uaf_message(call, p, board):
 class C03(F.PropCheck):
     pid = 'C03'; gen_groups = ['SrpcTable', 'C03Consts']; prop_file = 'Properties_C03'
     IN = {'CFG': 0, 'GATE': 1, 'SRV': 2, 'ADV': 3, 'SKEW': 4}
-    OUT = {0: 'EV', 1: 'V', 2: 'MW'}
+    OUT = {0: 'EV', 1: 'V', 2: 'MW', 3: 'AT'}
     quick_cases = 900; thorough_cases = 12000
     trusted_extra = ['C03 driver harness/drv/c03.c: -Wl,--wrap=srpc_getdata observer, table snapshots by memcmp, router script choosing the dev/devcfg binary',
                      'gen/grp_c03.py: patterns over `gcc -E` of srpc_getdata / supla_esp_on_remote_call_received (fails loudly on any unrecognised statement)',
@@ -276,11 +276,14 @@ class C03(F.PropCheck):
             if f < 0.4: func, cfg = rng.choice(C['rs_funcs']), c_rs(t(), t(), ud(), ud(), tm(), rng.getrandbits(8))
             elif f < 0.6: func, cfg = rng.choice(C['fb_funcs']), c_fb(t(), t(), t(), ud(), ud(), tm(), rng.choice([0, 1, 2, 3, 255]))
             elif f < 0.75: func, cfg = rng.choice(RELAY_FUNCS), struct.pack('<i', rng.choice([0, 500, 10000, -1]))
-            elif f < 0.85: func, cfg = 700, struct.pack('<I', rng.getrandbits(32))
+            elif f < 0.85: func, cfg = 700, struct.pack('<I', rng.choice([rng.getrandbits(32), 0xFFFFFFFF, 0, 1 << rng.randrange(32), 0x3FF, 0x1, 0x10]))
             else: func, cfg = rng.choice([0, -1, 1, 2 ** 31 - 1, rng.choice(C['rs_funcs'] + C['fb_funcs'])]), bytes(rng.getrandbits(8) for _ in range(rng.choice([0, 4, 43, 44, 45, 52, 53, 54, 512])))
             ctype = rng.choice([0, 0, 0, 0, 1, 255])
             if rng.random() < 0.12: cfg = cfg[:rng.randrange(0, len(cfg) + 1)]
             if rng.random() < 0.08: cfg = cfg + bytes(rng.randrange(1, 60))
+            if func == 700 and rng.random() < 0.7:
+                atc = [x[4] for x in b.inputs if x[4] != 255]
+                if atc: ch = rng.choice(atc)
             p, tag = m_config(ch, func, ctype, cfg), 'channel_config'
         elif k < 0.80: call, p, tag = C['CALL_CONFIG_FINISHED'], bytes([channel()]), 'config_finished'
         elif k < 0.84: call, p, tag = C['CALL_SET_CONFIG_RESULT'], bytes([rng.getrandbits(8), 0, channel()]), 'set_config_result'
@@ -374,6 +377,42 @@ class C03(F.PropCheck):
                         cases.append(F.Case('s%s_%d_%d_%d_%d' % (tier[0], nrs, func, call, ch), evs, ['config_sweep', 'devcfg', 'device']))
         return cases
 
+    def config_size_sweep(self, rng, tier):
+        """roller-shutter / facade-blind configs with every ConfigSize 0..sizeof+2 (and a wrong config type), each after a complete
+        config with non-zero times, so that applying a truncated structure (zeros / heap content) is visible as a change"""
+        C = consts(); cases = []
+        relays = [(0, 0, 0, 0), (1, 0, 0, 0), (2, 1, 0, 0), (3, 1, 0, 0), (4, 2, 0, 0)]
+        b = Board(1, 0, relays, [(0, 1), (2, 3)], [(6, 1, 0, 0, 255, 0), (7, 1, 0, 1, 255, 0), (8, 1, 0, 2, 255, 0), (9, 1, 0, 3, 255, 0), (10, 1, 0, 4, 255, 0)])
+        for func, full, need in ((C['rs_funcs'][0], c_rs(3000, 4000, 1, 1, 5, 7), C['RSC_SIZE']), (C['fb_funcs'][0], c_fb(3000, 4000, 700, 1, 1, 5, 2, 7), C['FBC_SIZE'])):
+            for call in (C['CALL_GET_CONFIG_RESULT'], C['CALL_SET_CONFIG']):
+                sizes = list(range(0, need + 3)); rr = 10
+                for k in range(0, len(sizes), 10):
+                    evs = [('CFG', b.ints(), b'')]
+                    for n in sizes[k:k + 10]:
+                        evs.append(('SRV', [call, rr], m_config(1, func, 0, full))); rr += 1
+                        evs.append(('SRV', [call, rr], m_config(1, func, 0, (full + bytes([0x5a] * 4))[:n]))); rr += 1
+                    evs.append(('SRV', [call, rr], m_config(1, func, 0, full))); rr += 1
+                    evs.append(('SRV', [call, rr], m_config(1, func, 1, full[:8] + bytes(len(full) - 8)))); rr += 1
+                    cases.append(F.Case('z%s_%d_%d_%d' % (tier[0], func, call, k), evs, ['config_size_sweep', 'devcfg', 'device']))
+        return cases
+
+    def at_sweep(self, rng, tier):
+        """ACTIONTRIGGER configs whose ActiveActions exceed what the input offers, for channels with full / partial / no capability,
+        for a relay channel and for a channel nobody has"""
+        C = consts(); cases = []
+        relays = [(4, 0, 0, 0), (5, 1, 0, 0), (12, 2, 0, 0)]
+        for typ in (1, 2):
+            inputs = [(6, typ, 0, 4, 3, 0x3FF), (7, typ, 0, 5, 4, 0x2A0), (8, typ, 0, 12, 5, 0), (9, typ, 0, 4, 255, 0)]
+            b = Board(1, 0, relays, [], inputs)
+            for call in (C['CALL_GET_CONFIG_RESULT'], C['CALL_SET_CONFIG']):
+                evs = [('CFG', b.ints(), b'')]; rr = 10
+                for ch in (3, 4, 5, 0, 6, 255):
+                    for act in (0xFFFFFFFF, 0x1, 0x10, 0x400, 0x80000000, 0x3FF, 0):
+                        evs.append(('SRV', [call, rr], m_config(ch, 700, 0, struct.pack('<I', act)))); rr += 1
+                evs.append(('ADV', [300000], b''))
+                cases.append(F.Case('a%s_%d_%d' % (tier[0], typ, call), evs, ['at_sweep', 'devcfg', 'device']))
+        return cases
+
     def enum_sweep(self, rng, tier):
         """handlers that format or store a numeric field: REGISTER_DEVICE_RESULT result codes over the 32-bit domain (every defined
         code, k*256+3, +-10^k boundaries, INT_MAX/INT_MIN), activity-timeout results, channel-state requests, version errors"""
@@ -396,7 +435,7 @@ class C03(F.PropCheck):
         return cases
 
     def gen_cases(self, rng, n, tier):
-        cases = self.config_sweep(rng, tier) + self.enum_sweep(rng, tier)
+        cases = self.config_sweep(rng, tier) + self.enum_sweep(rng, tier) + self.config_size_sweep(rng, tier) + self.at_sweep(rng, tier)
         if tier != 'search': cases += self.gate_cases(rng, tier)
         for i in range(n): cases.append(self.device_case(rng, '%s%d' % (tier[0], i), tier))
         return cases
@@ -408,12 +447,12 @@ class C03(F.PropCheck):
         T2L {i: (old, new)}, PIN {pin: level}, SR {slot: value}"""
         evs = []
         for (k, ints, data) in outs:
-            if k == 'EV': evs.append([ints[0] if ints else -1, [], set(), dict(TM={}, TA={}, T2L={}, PIN={}, SR={})])
+            if k == 'EV': evs.append([ints[0] if ints else -1, [], set(), dict(TM={}, TA={}, T2L={}, PIN={}, SR={}, AT={})])
             elif not evs: continue       # lines of the registration phase
             elif k == 'V': evs[-1][1].append(tuple(ints))
             elif k in ('CH', 'MW'): evs[-1][2].add((ints[0], ints[1]))
             elif k in ('TM', 'T2L'): evs[-1][3][k][ints[0]] = (ints[1], ints[2])
-            elif k in ('TA', 'PIN', 'SR'): evs[-1][3][k][ints[0]] = ints[1]
+            elif k in ('TA', 'PIN', 'SR', 'AT'): evs[-1][3][k][ints[0]] = ints[1]
         return evs
 
     @staticmethod
@@ -451,6 +490,18 @@ class C03(F.PropCheck):
                                  (k, call, len(p), 'is not a known call' if ok is None else 'does not have the size its type requires'))
                 if ok is not True and cells:
                     v.append('event %d: mis-sized/unknown call %d (%d bytes) had side effects on %s' % (k, call, len(p), sorted(cells)[:4]))
+                if b is not None:
+                    # action triggers: nothing an input does not offer ever becomes active
+                    for i, act in sorted(info['AT'].items()):
+                        if 0 <= i < len(b.inputs) and act & ~b.inputs[i][5] & 0xFFFFFFFF:
+                            v.append('event %d: call %d: input %d (channel %d) has active triggers 0x%x outside its capabilities 0x%x' % (k, call, i, b.inputs[i][4], act, b.inputs[i][5]))
+                    # a shutter config shorter than its structure (or of another config type) is not applied
+                    if ok is True and call in (C['CALL_GET_CONFIG_RESULT'], C['CALL_SET_CONFIG']) and b.devcfg:
+                        func = struct.unpack_from('<i', p, C['CC_FUNC'])[0]; csize = struct.unpack_from('<H', p, C['CC_SIZE'])[0]
+                        need = C['RSC_SIZE'] if func in C['rs_funcs'] else (C['FBC_SIZE'] if func in C['fb_funcs'] else None)
+                        if need is not None and (csize < need or p[C['CC_TYPE']] != 0):
+                            bad = sorted(c_ for c_ in cells if c_[0] not in (15, 16))
+                            if bad: v.append('event %d: call %d: shutter config of %d bytes (structure needs %d, type %d) was applied: cells %s changed' % (k, call, csize, need, p[C['CC_TYPE']], bad[:5]))
                 if b is not None and ok is True and call in C['dispatch'][1 if b.devcfg else 0]:
                     c = named_channel(call, p)
                     has_obj = c is not None and any(r[1] == c and r[0] != 255 for r in b.relays)
@@ -509,6 +560,8 @@ class C03(F.PropCheck):
                 if not iv and offline: continue      # the device is off line: the message was not delivered
                 if mv != iv:
                     return 'event %d (call %s, %d bytes): verdict model=%s impl=%s' % (idx, ints[0], len(p), mv, iv)
+                if _i2['AT'] != _i1['AT'] and iv:
+                    return 'event %d (call %s): active triggers model=%s impl=%s' % (idx, ints[0], sorted(_i1['AT'].items()), sorted(_i2['AT'].items()))
                 extra = ch - mw
                 if extra: return 'event %d (call %s): changed cells %s are not in the may-write set %s' % (idx, ints[0], sorted(extra)[:6], sorted(mw)[:8])
                 call = int(ints[0]); C = consts()
